@@ -26,6 +26,8 @@ package objectdeployments
 //@   sink Client.Create#1 requires [C07] tplVal(arg1) == depTplSpec(clientObj(objectDeployment)) && prevRevs(arg1) == prevObjectSets
 //@   requires forall i int, j int :: 0 <= i && i <= j && j < len(prevObjectSets) ==> ownerRev(prevObjectSets[i]) <= ownerRev(prevObjectSets[j])
 //@   sink Client.Create#1 requires [C07] currentObject == nil
+// the collision counter is bumped only for a clash with an ObjectSet that was actually read back
+//@   at SetStatusCollisionCount#1 assert [C07] getResult(clientObj(conflictingObjectSet)) == 2
 //@   at return#7 assert [C07] lastDeepEq() && !archivedOS(conflictingObjectSet) && (forall i int :: 0 <= i && i < len(prevObjectSets) ==> ownerRev(prevObjectSets[i]) <= ownerRev(conflictingObjectSet))
 
 //@ props C08
@@ -58,13 +60,13 @@ package objectdeployments
 //@ func package-operator.run/internal/controllers/objectdeployments.(*objectSetReconciler).Reconcile
 //@   sink objectSetSubReconciler.Reconcile#1 requires [C09] !depPaused(objectDeployment)
 // no revision is created (or anything else decided) while some existing ObjectSet has not reported its revision yet
-//@   loop 1 invariant [C07] 0 <= idx && (forall i int :: 0 <= i && i < idx ==> ownerRev(objectSets[i]) != 0)
-//@   at loopexit#1 assert [C07] forall i int :: 0 <= i && i < len(objectSets) ==> ownerRev(objectSets[i]) != 0
+//@   loop @GetRevision invariant [C07] 0 <= idx && (forall i int :: 0 <= i && i < idx ==> ownerRev(objectSets[i]) != 0)
+//@   at loopexit@GetRevision assert [C07] forall i int :: 0 <= i && i < len(objectSets) ==> ownerRev(objectSets[i]) != 0
 // unpausing releases exactly the revisions the parent had paused; pausing marks only revisions it had not paused
 //@   at SetActiveByParent#1 assert [C09] pausedByParent(objectSet) && !depPaused(objectDeployment)
 //@   at SetPausedByParent#1 assert [C09] !pausedByParent(objectSet) && depPaused(objectDeployment)
 //@   sink Client.Update#1 requires [C09] !archivedOS(objectSet)
-//@   loop 3 invariant !depPaused(objectDeployment)
+//@   loop @objectSetSubReconciler.Reconcile invariant !depPaused(objectDeployment)
 
 //@ props C07
 // every ObjectSet the API lists for the deployment is handed on (sorted by revision): none is left out, so the new
